@@ -12,20 +12,43 @@ statuses and the growth of the reference catalog), Mathlib-free.
   part (as in `Model/Overlap.lean`), `refArea cat g` is the guarded area between the reference
   catalog with content `cat` and the group number `g` (the reference footprint is re-evaluated
   against the growing catalog, as the code does);
+* the fit itself (`fit2ref`) is not computed: whether the matched sources of a group can be fitted
+  is **data** of the input (`Img.fitFail`: the fit of the group that contains the image is
+  degenerate, and which exception `fit2ref` raises); `align_to_ref` reports such a group as
+  `FAILED: singular matrix` / `FAILED: not enough points` (the code since 4565404; the behaviour
+  before — the exception leaves `align_wcs` in mid-run — is kept as `AlignCfg.catchFit = false`
+  for the witness of the finding only);
 * every write of `meta['fit_info']` and every `set_correction` call is recorded, in order, in a
-  trace of events; the reference catalog is a list of rows `(source, id, origin)`.
+  trace of events; the reference catalog is a list of rows `(source, id, origin)`;
+* `alignWcsEntry` is the top of `align_wcs` (argument validation, in the order of the code) in
+  front of `alignWcs`; `fitWcs` is `fit_wcs` (one image, `match=None`) on the same pieces.
 -/
 namespace TW
+
+/-- the exception `fit2ref` raises on a degenerate set of matched sources -/
+inductive FitFail where
+  | singular            -- `SingularMatrixError`: collinear / coincident matched sources
+  | notEnoughPoints     -- `NotEnoughPointsError`: too few matched sources with a positive weight
+  deriving Repr, DecidableEq
 
 structure Img where
   gid : Option Nat
   sources : List Nat
+  /-- the matched sources of the group that contains this image cannot be fitted -/
+  fitFail : Option FitFail := none
   deriving Repr, Inhabited
 
 inductive FailReason where
   | emptyCatalog        -- 'FAILED: empty source catalog'
   | notEnoughMatches    -- 'FAILED: not enough matches'
+  | singularMatrix      -- 'FAILED: singular matrix'
+  | notEnoughPoints     -- 'FAILED: not enough points'
+  | unknownError        -- 'FAILED: Unknown error' (the initial status written by `fit_wcs`)
   deriving Repr, DecidableEq
+
+def FitFail.reason : FitFail → FailReason
+  | .singular => .singularMatrix
+  | .notEnoughPoints => .notEnoughPoints
 
 inductive Status where
   | reference
@@ -43,7 +66,26 @@ inductive AlignErr where
   | emptyRefcat         -- `ValueError`: reference catalog must contain at least one source
   | lengthMismatch      -- `ValueError` of `match2ref` when `match=None` and lengths differ
   | indexError          -- a `pop` out of range in the ordering helpers (never, see C15)
+  | fitError (f : FitFail)  -- exception of `fit2ref` leaving `align_wcs` (before 4565404 only)
+  | fitgeomKeyError     -- `KeyError` of `SUPPORTED_FITGEOM_MODES[fitgeom]` inside `align_to_ref`
+  -- argument validation at the top of `align_wcs` / `fit_wcs`
+  | wcscatType          -- `TypeError`: 'wcscat' neither a corrector nor a list of correctors
+  | noCatalog           -- `ValueError`: a corrector without `meta['catalog']`
+  | catalogNoXY         -- `ValueError` of `WCSImageCatalog`: catalog without 'x', 'y' columns
+  | fitgeomNotString    -- `AttributeError` of `fitgeom.lower()`
+  | badFitgeom          -- `ValueError`: unsupported 'fitgeom'
+  | refNoCatalog        -- `ValueError`: reference corrector without a catalog
+  | refNoRADEC          -- `KeyError`: reference table without 'RA', 'DEC'
+  | refcatType          -- `TypeError`: unsupported 'refcat' type
+  | metaNotWritable     -- `AttributeError` of `fit_wcs`: `corrector.meta` cannot be set
   deriving Repr, DecidableEq
+
+/-- the errors raised by the argument checks at the top of `align_wcs` (the refusal of an empty
+reference catalog by `RefCatalog` is one of them) -/
+def AlignErr.isValidation : AlignErr → Bool
+  | .wcscatType | .noCatalog | .catalogNoXY | .fitgeomNotString | .badFitgeom
+  | .refNoCatalog | .refNoRADEC | .refcatType | .emptyRefcat => true
+  | _ => false
 
 /-- a row of the reference catalog: physical source, `id` column, image it was taken from
 (`none`: a row of the catalog supplied by the caller) -/
@@ -64,6 +106,12 @@ structure AlignCfg where
   minobj : Nat        -- `minobj` as `align_wcs` passes it on (the caller's value, or the default)
   fitmin : Nat        -- `SUPPORTED_FITGEOM_MODES[fitgeom]`: sources needed by the fit geometry
   mode : MatchMode
+  /-- `fitgeom in SUPPORTED_FITGEOM_MODES` (an unknown one passes the top of `align_wcs` when
+  `minobj` is given, and `align_to_ref` then dies with a `KeyError`) -/
+  fitgeomKnown : Bool := true
+  /-- `align_to_ref` catches `SingularMatrixError` / `NotEnoughPointsError` of `fit2ref`
+  (the code since 4565404); `false` is the behaviour before, kept for the witness of the finding -/
+  catchFit : Bool := true
 
 /-- effective `minobj` of `align_to_ref`: `max(minobj, SUPPORTED_FITGEOM_MODES[fitgeom])` -/
 def effMinobj (cfg : AlignCfg) : Nat := if cfg.minobj < cfg.fitmin then cfg.fitmin else cfg.minobj
@@ -71,7 +119,7 @@ def effMinobj (cfg : AlignCfg) : Nat := if cfg.minobj < cfg.fitmin then cfg.fitm
 /-- one call of `refcat.expand_catalog(unmatched)` -/
 structure Expansion where
   group : List Nat      -- the group whose unmatched sources were appended
-  ok : Bool             -- it had been aligned successfully
+  ok : Bool             -- it had been aligned successfully (`status == 'SUCCESS'`)
   areaZero : Bool       -- it had no overlap with the reference (`not area`)
   rows : List RefRow
   deriving Repr
@@ -118,26 +166,51 @@ def nMatches (imgs : List Img) (cfg : AlignCfg) (gr : List Nat) (cat : List RefR
   | .ideal => (src.filter fun p => (cat.map (·.src)).contains p.1).length
   | .none1to1 => src.length
 
-/-- matching and the `nmatches < minobj` test of `align_to_ref`; returns whether the group was
-aligned and its unmatched sources (`get_unmatched_cat`) -/
+/-- which degenerate fit (if any) awaits the group: the flag of its first flagged member -/
+def fitFailOf (imgs : List Img) (gr : List Nat) : Option FitFail :=
+  gr.findSome? fun k => (imgs.getD k default).fitFail
+
+/-- `align_to_ref` after `match2ref`: the `nmatches < minobj` test, then `fit2ref` inside
+`try … except (SingularMatrixError, NotEnoughPointsError)`; `none` is SUCCESS -/
+def fitStep (imgs : List Img) (cfg : AlignCfg) (gr : List Nat) (nm : Nat) :
+    Except AlignErr (Option FailReason) :=
+  if nm < effMinobj cfg then .ok (some .notEnoughMatches)
+  else match fitFailOf imgs gr with
+    | none => .ok none
+    | some f => if cfg.catchFit then .ok (some f.reason) else .error (.fitError f)
+
+/-- `align_to_ref`: `SUPPORTED_FITGEOM_MODES[fitgeom]`, matching, the `nmatches < minobj` test and
+the fit; returns the outcome of the group (`none`: aligned; `some r`: `FAILED: r`, `return False`)
+and its unmatched sources (`get_unmatched_cat`) -/
 def alignGroup (imgs : List Img) (cfg : AlignCfg) (gr : List Nat) (cat : List RefRow) :
-    Except AlignErr (Bool × List (Nat × Nat)) :=
+    Except AlignErr (Option FailReason × List (Nat × Nat)) :=
+  if !cfg.fitgeomKnown then .error .fitgeomKeyError else
   let src := groupSources imgs gr
   let refset := cat.map (·.src)
   match cfg.mode with
   | .ideal =>
     let matched := src.filter fun p => refset.contains p.1
     let un := src.filter fun p => !refset.contains p.1
-    .ok (decide (effMinobj cfg ≤ matched.length), un)
+    match fitStep imgs cfg gr matched.length with
+    | .error e => .error e
+    | .ok o => .ok (o, un)
   | .none1to1 =>
     if src.length ≠ cat.length then .error .lengthMismatch
-    else .ok (decide (effMinobj cfg ≤ src.length), [])
+    else match fitStep imgs cfg gr src.length with
+      | .error e => .error e
+      | .ok o => .ok (o, [])
 
-/-- events of one processed group: `set_correction` of every member (inside `align_to_ref`), then
-the `fit_info` of every member -/
-def blockEvents (res : List Nat × Bool) : List Event :=
-  if res.2 then res.1.map Event.correct ++ res.1.map (fun k => Event.status k .success)
-  else res.1.map (fun k => Event.status k (.failed .notEnoughMatches))
+/-- the status a processed group ends with -/
+def outcomeStatus : Option FailReason → Status
+  | none => .success
+  | some r => .failed r
+
+/-- events of one processed group: `set_correction` of every member (inside `align_to_ref`, only
+when the fit was made), then the `fit_info` of every member -/
+def blockEvents (res : List Nat × Option FailReason) : List Event :=
+  match res.2 with
+  | none => res.1.map Event.correct ++ res.1.map (fun k => Event.status k .success)
+  | some r => res.1.map (fun k => Event.status k (.failed r))
 
 section
 variable {K : Type} [LT K] [DecidableLT K] [Add K] [NatCast K] [BEq K]
@@ -152,7 +225,7 @@ def nextImage (eo : Bool) (refArea : List RefRow → Nat → K × Nat) (work : L
 
 structure LoopOut where
   err : Option AlignErr
-  results : List (List Nat × Bool)   -- groups handed to `align_to_ref`, in order, with the outcome
+  results : List (List Nat × Option FailReason)   -- groups handed to `align_to_ref`, in order, with the outcome
   nms : List Nat                     -- `nmatches` of those groups
   expansions : List Expansion
   refcat : List RefRow
@@ -167,14 +240,15 @@ def alignLoop (imgs : List Img) (kept : List (List Nat)) (cfg : AlignCfg) (eo : 
     let gr := kept.getD gi []
     match alignGroup imgs cfg gr cat with
     | .error e => { err := some e, results := [], nms := [], expansions := [], refcat := cat }
-    | .ok (ok, un) =>
-      let zero := area == zeroK
+    | .ok (o, un) =>
+      let ok := o.isNone                      -- `fit_info['status'] == 'SUCCESS'`
+      let zero := area == zeroK               -- `not area`
       let grow := cfg.expand && (ok || zero)
       let rows := newRows cat un
       let cat' := if grow then cat ++ rows else cat
       let nx := nextImage eo refArea work cat'
       let out := alignLoop imgs kept cfg eo refArea fuel nx.1 nx.2 cat'
-      { err := out.err, results := (gr, ok) :: out.results, nms := nMatches imgs cfg gr cat :: out.nms,
+      { err := out.err, results := (gr, o) :: out.results, nms := nMatches imgs cfg gr cat :: out.nms,
         expansions := (if grow then [{ group := gr, ok := ok, areaZero := zero, rows := rows }] else [])
                         ++ out.expansions,
         refcat := out.refcat }
@@ -184,13 +258,15 @@ structure AlignOut where
   events : List Event         -- status writes and `set_correction` calls, in order
   order : List (List Nat)     -- groups aligned ("Aligning image catalog …"), in order
   nms : List Nat              -- their `nmatches`
+  outcomes : List (Option FailReason)   -- their outcomes (`none`: SUCCESS)
   initial : List RefRow       -- the reference catalog before the first alignment
   expansions : List Expansion
   refcat : List RefRow        -- the returned catalog
 
 /-- an exception leaves `align_wcs`: what had been written so far -/
 def alignFail (e : AlignErr) (ev : List Event) : AlignOut :=
-  { err := some e, events := ev, order := [], nms := [], initial := [], expansions := [], refcat := [] }
+  { err := some e, events := ev, order := [], nms := [], outcomes := [], initial := [], expansions := [],
+    refcat := [] }
 
 /-- state at the entry of the alignment loop -/
 structure Start (K : Type) where
@@ -239,7 +315,136 @@ def alignWcs (imgs : List Img) (refIn : Option (List Nat × Option (List Int))) 
   | .ok st =>
     let out := alignLoop imgs kept cfg eo refArea (n + 1) st.cur st.work st.cat
     { err := out.err, events := de.2 ++ st.ev1 ++ out.results.flatMap blockEvents,
-      order := out.results.map (·.1), nms := out.nms, initial := st.cat, expansions := out.expansions,
-      refcat := out.refcat }
+      order := out.results.map (·.1), nms := out.nms, outcomes := out.results.map (·.2), initial := st.cat,
+      expansions := out.expansions, refcat := out.refcat }
+
+/-! ### the top of `align_wcs`: argument validation, in the order of the code -/
+
+/-- `meta['catalog']` of a corrector of `wcscat` -/
+inductive CatArg where
+  | ok          -- a table with 'x' and 'y' columns
+  | missing     -- `meta.get('catalog') is None`
+  | noXY        -- a table without 'x' / 'y' (refused by `WCSImageCatalog`)
+  deriving Repr, DecidableEq
+
+/-- an element of the list `wcscat` -/
+structure ImgArg where
+  isCorrector : Bool
+  cat : CatArg
+  img : Img
+  deriving Repr
+
+inductive WcscatArg where
+  | single (cat : CatArg) (img : Img)   -- one `WCSCorrector` (wrapped into a list, `start = 1`)
+  | list (l : List ImgArg)              -- an iterable that can be sliced
+  | notIterable                         -- anything else
+  deriving Repr
+
+inductive FitgeomArg where
+  | known (fitmin : Nat)    -- after `.lower()` a key of `SUPPORTED_FITGEOM_MODES`
+  | unknown                 -- a string that is not
+  | notString               -- no `.lower()`
+  deriving Repr, DecidableEq
+
+inductive RefArg where
+  | none
+  | corrector (hasCatalog : Bool) (srcs : List Nat)   -- `'catalog' in refcat.meta`
+  | table (hasRADEC : Bool) (srcs : List Nat) (ids : Option (List Int))
+  | unsupported
+  deriving Repr
+
+structure AlignArgs where
+  wcscat : WcscatArg
+  refcat : RefArg
+  fitgeom : FitgeomArg
+  minobj : Option Nat
+  expand : Bool
+  enforce : Bool
+  mode : MatchMode
+  deriving Repr
+
+/-- the list the loop `for wcat in wcscat` runs over -/
+def WcscatArg.items : WcscatArg → List ImgArg
+  | .single c i => [{ isCorrector := true, cat := c, img := i }]
+  | .list l => l
+  | .notIterable => []
+
+/-- `not (hasattr(wcscat, '__iter__') and all(isinstance(wcat, WCSCorrector) for wcat in wcscat[start:]))` -/
+def WcscatArg.typeError : WcscatArg → Bool
+  | .single _ _ => false
+  | .list l => l.any fun a => !a.isCorrector
+  | .notIterable => true
+
+/-- the first corrector (in list order) whose catalog is refused, with the error it raises -/
+def catalogError : List ImgArg → Option AlignErr
+  | [] => none
+  | a :: t =>
+    match a.cat with
+    | .ok => catalogError t
+    | .missing => some .noCatalog
+    | .noXY => some .catalogNoXY
+
+/-- "process reference catalog or image if provided" up to (not including) the refusal of an empty
+catalog by `RefCatalog`, which `alignWcs` models -/
+def refCheck : RefArg → Except AlignErr (Option (List Nat × Option (List Int)))
+  | .none => .ok none
+  | .corrector hasCat srcs => if hasCat then .ok (some (srcs, none)) else .error .refNoCatalog
+  | .table hasRD srcs ids => if hasRD then .ok (some (srcs, ids)) else .error .refNoRADEC
+  | .unsupported => .error .refcatType
+
+/-- the options `align_wcs` works with once the arguments are accepted -/
+def AlignArgs.cfg (a : AlignArgs) : AlignCfg :=
+  let fitmin := match a.fitgeom with | .known m => m | _ => 0
+  { expand := a.expand, enforce := a.enforce, minobj := a.minobj.getD fitmin, fitmin := fitmin, mode := a.mode,
+    fitgeomKnown := (match a.fitgeom with | .known _ => true | _ => false), catchFit := true }
+
+/-- `align_wcs(wcscat, refcat, …)` from its first line: type of `wcscat`, a catalog in every
+corrector, `fitgeom` (checked only while the default of `minobj` is looked up), `refcat`; then
+grouping and alignment (`alignWcs`) -/
+def alignWcsEntry (a : AlignArgs) (pairG : List (List (K × Nat))) (refArea : List RefRow → Nat → K × Nat) :
+    AlignOut :=
+  if a.wcscat.typeError then alignFail .wcscatType [] else
+  match catalogError a.wcscat.items with
+  | some e => alignFail e []
+  | none =>
+    if a.fitgeom = .notString then alignFail .fitgeomNotString [] else
+    if a.fitgeom = .unknown ∧ a.minobj = none then alignFail .badFitgeom [] else
+    match refCheck a.refcat with
+    | .error e => alignFail e []
+    | .ok refIn => alignWcs (a.wcscat.items.map (·.img)) refIn a.cfg pairG refArea
 end
+
+/-! ### `fit_wcs`: one image, catalogs matched beforehand (`match=None`, `minobj=None`) -/
+
+structure FitArgs where
+  metaWritable : Bool       -- `corrector.meta['fit_info'] = …` works
+  fitgeom : FitgeomArg
+  cat : CatArg              -- `imcat` (`missing` does not occur: it is an argument)
+  img : Img                 -- the sources of `imcat` (the group id is not looked at)
+  refHasRADEC : Bool
+  refSrcs : List Nat
+  deriving Repr
+
+structure FitOut where
+  err : Option AlignErr
+  events : List Event
+  deriving Repr
+
+/-- `fit_wcs(refcat, imcat, corrector, fitgeom=…)`; the image is number 0 -/
+def fitWcs (a : FitArgs) : FitOut :=
+  if !a.metaWritable then { err := some .metaNotWritable, events := [] } else
+  let ev0 := [Event.status 0 (.failed .unknownError)]       -- initial status
+  match a.fitgeom with
+  | .notString => { err := some .fitgeomNotString, events := ev0 }
+  | .unknown => { err := some .badFitgeom, events := ev0 }
+  | .known fitmin =>
+    if a.cat ≠ .ok then { err := some .catalogNoXY, events := ev0 }            -- `WCSImageCatalog(imcat, …)`
+    else if !a.refHasRADEC then { err := some .refNoRADEC, events := ev0 }      -- `RefCatalog(refcat, …)`
+    else if a.refSrcs.isEmpty then { err := some .emptyRefcat, events := ev0 }
+    else
+      let cfg : AlignCfg := { expand := false, enforce := true, minobj := fitmin, fitmin := fitmin,
+                              mode := .none1to1 }
+      match alignGroup [a.img] cfg [0] (rowsOfTable a.refSrcs none) with
+      | .error e => { err := some e, events := ev0 }
+      | .ok (o, _) => { err := none, events := ev0 ++ blockEvents ([0], o) }   -- final `fit_info`
 end TW
